@@ -659,8 +659,11 @@ def handleFinalizer (ro : Rollout) : Rollout × Bool × List String :=
   else if ¬ ro.hasFinalizer then ({ ro with hasFinalizer := true }, false, ["addFinalizer"])
   else (ro, false, [])
 
-/-- `RolloutReconciler.Reconcile` for an existing Rollout -/
-def reconcile (w : World) : Out :=
+/-- `RolloutReconciler.Reconcile` for an existing Rollout, up to (and excluding) the cursor reset that precedes
+    `updateRolloutStatusInternal`: finalizer, `calculateRolloutStatus`, the switch on the OLD phase.
+    The rollout of the result is `newStatus` as the branch left it — or the unchanged status where the code returns
+    before the status is written (retry, error). -/
+def reconcileCore (w : World) : Out :=
   let ro := w.ro
   let mk (w' : World) (gone rq err : Bool) (ws : List String) : Out :=
     .val { w := w', roGone := gone, requeue := rq, err := err, writes := ws }
@@ -743,5 +746,27 @@ def reconcile (w : World) : Out :=
         else if done then mk { w' with ro := { w'.ro with phase := .disabled } } gone false false (ws0 ++ ws)
         else mk w' gone true false (ws0 ++ ws)
     | _ => mk { w with ro := ns } gone false false ws0
+
+/-- `sub.FinalisingStep = ""` on the sub-status (if any) -/
+def clearCursor (ro : Rollout) : Rollout :=
+  { ro with sub := ro.sub.map fun s => { s with finStep := .empty } }
+
+/-- the tail of `Reconcile` between the switch on the old phase and `updateRolloutStatusInternal` (fix "cursor reset"):
+    a rollout that was Progressing and whose new status says Terminating or Disabling changes its finalize reason and
+    with it the order of the clean-up tasks; the cursor left by the success / rollback sequence (or by the
+    continuous-release reset) is cleared, the new clean-up starts from its first task.
+    `r.w.ro` is `newStatus` on every path that reaches this point; on the paths that return earlier (retry, error) the
+    rollout of the result still carries the old phase Progressing, so the test is false there. -/
+def resetOnExit (w : World) (r : StepResult) : StepResult :=
+  if w.ro.phase = .progressing ∧ (r.w.ro.phase = .terminating ∨ r.w.ro.phase = .disabling) then
+    { r with w := { r.w with ro := clearCursor r.w.ro } }
+  else r
+
+def Out.map (f : StepResult → StepResult) : Out → Out
+  | .val r => .val (f r)
+  | .panic => .panic
+
+/-- `RolloutReconciler.Reconcile` for an existing Rollout -/
+def reconcile (w : World) : Out := (reconcileCore w).map (resetOnExit w)
 
 end RV.RolloutSM
